@@ -35,7 +35,7 @@ ASSUMPTIONS = [
     "neutral regime it would be reported as a violation",
 ]
 REQUIRED = {"all": ["clamp_observed", "sentinel_observed", "ratio_in_unit_interval", "cached_dmax_path",
-                    "maximiser_cases", "hill_climb_cases_ge18_neutrals", "ordered_composition_cases", "sweep_compositions"]}
+                    "maximiser_cases", "hill_climb_cases_ge18_neutrals", "ordered_composition_cases", "sweep_compositions", "unbalanced_composition_cases"]}
 LC = {"quick": 10, "thorough": 12}
 LP = {"quick": 9, "thorough": 11}
 NRANDOM = {"quick": 1200, "thorough": 5000}
@@ -63,6 +63,12 @@ def cases(tier, seed):
                   [(10, 1, 2), (1, 0, 12), (10, 12, 0)], [(3, 11, 1), (31, 1, 1), (3, 1, 11)]):
         yield {"k": "ordered", "comps": [list(c) for c in group]}
         yield {"k": "ordered", "comps": [list(c) for c in reversed(group)]}
+    # strongly unbalanced compositions (1-3 residues of one sign against many of the other) with 1..17 neutrals, presented
+    # as random and as block-like arrangements: the regime where a truncated candidate scan loses the maximum
+    rngu = gen.sub_rng(0, ID, "unbalanced")
+    for j in range(60 if tier == "quick" else 500):
+        few, many, z = rngu.randint(1, 3), rngu.randint(8, 30), rngu.randint(1, 17)
+        yield {"k": "unbalanced", "c": [few, many, z] if j % 2 else [many, few, z], "o": rngu.randrange(1 << 30)}
     # hundreds of distinct compositions in ONE process, then the first ones again (new objects, new spellings):
     # delta-max must not depend on how many other compositions were analysed in between
     yield {"k": "sweep", "count": 420 if tier == "quick" else 1500, "again": 80}
@@ -226,6 +232,16 @@ def judge(case, rep, S):
         if len(case["s"]) > 60:
             rep.cnt("long_random")
         judge_seq(rep, S, case["s"], case.get("order", 0), "given")
+    elif case["k"] == "unbalanced":
+        p, n, z = case["c"]
+        rng = gen.sub_rng(case["o"], "unbalanced")
+        rep.cnt("unbalanced_composition_cases")
+        zs = rng.randint(0, z)
+        blocky = [0] * zs + [1] * p + [-1] * n + [0] * (z - zs)
+        mixed = list(blocky)
+        rng.shuffle(mixed)
+        for arr in (blocky, blocky[::-1], mixed):
+            judge_seq(rep, S, gen.spell(rng, arr), case["o"], "unbalanced composition %r" % (case["c"],))
     elif case["k"] == "sweep":
         rng = gen.sub_rng(0, "sweep")
         comps = gen.distinct_compositions(rng, case["count"], 8, 26)
